@@ -272,7 +272,12 @@ def build_bytes_from_sse(event: ServerSentEvent, charset: str) -> bytes:
     """
     data: Iterable[bytes]
     if "data" in event:
-        data = (f"data: {_}".encode(charset) for _ in event.pop("data").splitlines())
+        # An event stream ends a line at CR, LF or CRLF only. str.splitlines() also
+        # breaks at VT, FF, FS, GS, RS, NEL, LS and PS and drops a final empty line.
+        data = (
+            f"data: {_}".encode(charset)
+            for _ in re.split(r"\r\n|\r|\n", event.pop("data"))
+        )
     else:
         data = ()
     return b"\n".join(
